@@ -312,7 +312,38 @@ func c16AddEntry(c *Ctx, sx *symx.Ctx, fn *ssa.Function) {
 		sl := trim.Val.(*ssa.Slice)
 		xl, _ := histFieldLoad(sl.X, "Entries")
 		shape := ""
+		// the survivors may be moved to the front first:
+		//   kept := copy(Entries, Entries[len-Max:]); Entries = Entries[:kept]
+		// the prefix then holds exactly the suffix that the plain form keeps
+		shifted := false
+		if sl.Low == nil && sl.Max == nil && sl.High != nil {
+			if cp, ok := sl.High.(*ssa.Call); ok && ssau.CallName(cp) == "builtin.copy" {
+				dst, src := cp.Common().Args[0], cp.Common().Args[1]
+				if _, ok := histFieldLoad(dst, "Entries"); ok {
+					if ss, ok := src.(*ssa.Slice); ok && ss.High == nil && ss.Max == nil && ss.Low != nil {
+						if sx0, ok := histFieldLoad(ss.X, "Entries"); ok && f.Version(sx0) == vA {
+							d := linOf(f, ss.Low, 0)
+							good := d.ok && d.k == 0 && len(d.terms) == 2
+							for a, cf := range d.terms {
+								v := d.vals[a]
+								if lc, isLen := v.(*ssa.Call); isLen && cf == 1 {
+									if l, ok := lenOfEntries(lc); ok && f.Version(l) == vA {
+										continue
+									}
+								}
+								if _, ok := histFieldLoad(v, "MaxSize"); ok && cf == -1 && f.E(v) == f.E(mLoad) {
+									continue
+								}
+								good = false
+							}
+							shifted = good
+						}
+					}
+				}
+			}
+		}
 		switch {
+		case shifted:
 		case sl.High != nil || sl.Max != nil:
 			shape = "the reslice has an upper bound (" + f.Plain(sl) + "): a prefix keeps the OLDEST entries and drops the newest"
 		case sl.Low == nil:
